@@ -43,6 +43,14 @@ def countBit : Nat → Nat
   | 0 => 0
   | n + 1 => (n + 1) % 2 + countBit ((n + 1) / 2)
 
+/-- `countBit` exactly as the Go loop: `for num != 0 { num &= num - 1; count += 1 }` (fuel = `num`, each
+step strictly decreases a non-zero `num`). `Proofs/MerkleBits.countBitLoop_eq` shows it equals `countBit`. -/
+def countBitLoop : Nat → Nat → Nat
+  | 0, _ => 0
+  | f + 1, num => if num = 0 then 0 else 1 + countBitLoop f (num &&& (num - 1))
+
+def countBitGo (num : Nat) : Nat := countBitLoop num num
+
 /-- `highBit`: 1-based position of the highest one bit (`0` for `0`). -/
 def highBit : Nat → Nat
   | 0 => 0
@@ -244,57 +252,66 @@ def reopenFile (fileHashes : List Hash) (treeSize : Nat) : Option HashStore :=
   if fileHashes.length < storedHashNum treeSize then none
   else some ⟨true, fileHashes.take (storedHashNum treeSize), fileHashes.drop (storedHashNum treeSize)⟩
 
+/-- How the proof generators see the store: `GetHash(pos1 - 1)` for a 1-based position. The generators are
+written against this reader so that the compiled driver can back it with an array (`Model/MerkleArray`,
+proved equal to the list-backed `getHash1`). -/
+abbrev Reader := Nat → Except Err Hash
+
 /-- Root of `cnt` leaves whose stored hashes start after `base - 1` store entries: `pos[p] += base - 1`
 (computed in `uint32` as `pos[p] + offset + k*2 - 1`, which is 0 only in the `m = 0` quirk of `subproof`),
 then `GetHash(pos[p] - 1)` and `_hash_fold`. -/
-def readAll (st : HashStore) (base : Nat) : List Nat → Except Err (List Hash)
+def readAll (rd : Reader) (base : Nat) : List Nat → Except Err (List Hash)
   | [] => .ok []
   | p :: ps =>
-    match getHash1 st (p + base - 1) with
+    match rd (p + base - 1) with
     | .error e => .error e
-    | .ok h => match readAll st base ps with
+    | .ok h => match readAll rd base ps with
       | .error e => .error e
       | .ok hs => .ok (h :: hs)
 
-def rangeRoot (st : HashStore) (base cnt : Nat) : Except Err Hash :=
-  match readAll st base (getSubTreePos cnt) with
+def rangeRoot (rd : Reader) (base cnt : Nat) : Except Err Hash :=
+  match readAll rd base (getSubTreePos cnt) with
   | .error e => .error e
   | .ok hs => hashFold H hs
 
 /-- `merkleRoot(n)`: root of `D[0:n]` from the store. -/
-def merkleRoot (st : HashStore) (n : Nat) : Except Err Hash := rangeRoot H st 1 n
+def merkleRoot (rd : Reader) (n : Nat) : Except Err Hash := rangeRoot H rd 1 n
 
 /-! ### Proof generators -/
 
 /-- Loop of `InclusionProof` / `MerkleInclusionLeafPath`: collects `(pos byte, hash)` top-down. -/
-def inclLoop (st : HashStore) : Nat → Nat → Nat → Nat → Except Err (List (UInt8 × Hash))
+def inclLoop (rd : Reader) : Nat → Nat → Nat → Nat → Except Err (List (UInt8 × Hash))
   | 0, _, _, _ => .error .fuel
   | f + 1, m, n, offset =>
     if n = 1 then .ok []
     else
       let k := splitK n
       if m < k then
-        match rangeRoot H st (offset + k * 2) (n - k) with
+        match rangeRoot H rd (offset + k * 2) (n - k) with
         | .error e => .error e
-        | .ok h => match inclLoop st f m k offset with
+        | .ok h => match inclLoop rd f m k offset with
           | .error e => .error e
           | .ok r => .ok ((1, h) :: r)
       else
-        match getHash1 st (offset + (k * 2 - 1)) with
+        match rd (offset + (k * 2 - 1)) with
         | .error e => .error e
-        | .ok h => match inclLoop st f (m - k) (n - k) (offset + (k * 2 - 1)) with
+        | .ok h => match inclLoop rd f (m - k) (n - k) (offset + (k * 2 - 1)) with
           | .error e => .error e
           | .ok r => .ok ((0, h) :: r)
 
-/-- `InclusionProof(m, n)`. -/
-def inclusionProof (s : State) (m n : Nat) : Except Err (List Hash) :=
+/-- `InclusionProof(m, n)` over a tree of `size` leaves and the reader of its store (`none`: no store). -/
+def inclusionProofR (size : Nat) (rd : Option Reader) (m n : Nat) : Except Err (List Hash) :=
   if m ≥ n then .error .wrongParams
-  else if s.tree.size < n then .error .notAvailable
-  else match s.store with
+  else if size < n then .error .notAvailable
+  else match rd with
     | none => .error .noStore
-    | some st => match inclLoop H st n m n 0 with
+    | some rd => match inclLoop H rd n m n 0 with
       | .error e => .error e
       | .ok r => .ok (r.map (·.2)).reverse
+
+/-- `InclusionProof(m, n)`. -/
+def inclusionProof (s : State) (m n : Nat) : Except Err (List Hash) :=
+  inclusionProofR H s.tree.size (s.store.map getHash1) m n
 
 /-! #### Varuint / varbytes of `common.ZeroCopySink` / `ZeroCopySource` -/
 
@@ -337,57 +354,64 @@ def encodePairs : List (UInt8 × Hash) → List UInt8
   | (f, h) :: r => f :: (h ++ encodePairs r)
 
 /-- `MerkleInclusionLeafPath(data, m, n)`: `varbytes(data)` then `(pos, hash)` pairs lowest first. -/
-def merkleInclusionLeafPath (s : State) (data : List UInt8) (m n : Nat) : Except Err (List UInt8) :=
+def merkleInclusionLeafPathR (size : Nat) (rd : Option Reader) (data : List UInt8) (m n : Nat) :
+    Except Err (List UInt8) :=
   if m ≥ n then .error .wrongParams
-  else if s.tree.size < n then .error .notAvailable
-  else match s.store with
+  else if size < n then .error .notAvailable
+  else match rd with
     | none => .error .noStore
-    | some st => match inclLoop H st n m n 0 with
+    | some rd => match inclLoop H rd n m n 0 with
       | .error e => .error e
       | .ok r => .ok (varBytes data ++ encodePairs r.reverse)
 
+def merkleInclusionLeafPath (s : State) (data : List UInt8) (m n : Nat) : Except Err (List UInt8) :=
+  merkleInclusionLeafPathR H s.tree.size (s.store.map getHash1) data m n
+
 /-- Loop of `subproof`: hashes top-down, final `(n, offset, b)`. -/
-def consLoop (st : HashStore) : Nat → Nat → Nat → Nat → Bool → Except Err (List Hash × Nat × Nat × Bool)
+def consLoop (rd : Reader) : Nat → Nat → Nat → Nat → Bool → Except Err (List Hash × Nat × Nat × Bool)
   | 0, _, _, _, _ => .error .fuel
   | f + 1, m, n, offset, b =>
     if m < n then
       let k := splitK n
       if m ≤ k then
-        match rangeRoot H st (offset + k * 2) (n - k) with
+        match rangeRoot H rd (offset + k * 2) (n - k) with
         | .error e => .error e
-        | .ok h => match consLoop st f m k offset b with
+        | .ok h => match consLoop rd f m k offset b with
           | .error e => .error e
           | .ok (r, x) => .ok (h :: r, x)
       else
-        match getHash1 st (offset + (k * 2 - 1)) with
+        match rd (offset + (k * 2 - 1)) with
         | .error e => .error e
-        | .ok h => match consLoop st f (m - k) (n - k) (offset + (k * 2 - 1)) false with
+        | .ok h => match consLoop rd f (m - k) (n - k) (offset + (k * 2 - 1)) false with
           | .error e => .error e
           | .ok (r, x) => .ok (h :: r, x)
     else .ok ([], n, offset, b)
 
 /-- `subproof(m, n, b)`. -/
-def subproofGen (st : HashStore) (m n : Nat) (b : Bool) : Except Err (List Hash) :=
-  match consLoop H st (n + 1) m n 0 b with
+def subproofGen (rd : Reader) (m n : Nat) (b : Bool) : Except Err (List Hash) :=
+  match consLoop H rd (n + 1) m n 0 b with
   | .error e => .error e
   | .ok (hs, n', offset, b') =>
     if b' = false then
       match getSubTreePos n' with
-      | [p] => match getHash1 st (p + offset) with
+      | [p] => match rd (p + offset) with
         | .error e => .error e
         | .ok h => .ok (hs ++ [h]).reverse
       | _ => .error .panic            -- "assert error"
     else .ok hs.reverse
 
 /-- `ConsistencyProof(m, n)`; `none` is the Go `nil` result for bad parameters. -/
-def consistencyProof (s : State) (m n : Nat) : Except Err (Option (List Hash)) :=
-  match s.store with
+def consistencyProofR (size : Nat) (rd : Option Reader) (m n : Nat) : Except Err (Option (List Hash)) :=
+  match rd with
   | none => .ok none
-  | some st =>
-    if m > n ∨ s.tree.size < n then .ok none
-    else match subproofGen H st m n true with
+  | some rd =>
+    if m > n ∨ size < n then .ok none
+    else match subproofGen H rd m n true with
       | .error e => .error e
       | .ok p => .ok (some p)
+
+def consistencyProof (s : State) (m n : Nat) : Except Err (Option (List Hash)) :=
+  consistencyProofR H s.tree.size (s.store.map getHash1) m n
 
 /-! ### Verifiers (C07) -/
 
